@@ -959,8 +959,9 @@ class PathEval:
             self.env.pop(k, None)
         it = self.subst(s.iter)
         local = {}
-        appends = []      # (acc name, expr, guard)
+        appends = []      # (acc name, expr, guard[, inner generators])
         aliases = []
+        gens_stack = []   # inner `for` loops around the append: further generators of the comprehension
 
         def sub(e):
             return ast.fix_missing_locations(_Subst({**self.env, **local}).visit(copy.deepcopy(e)))
@@ -983,7 +984,21 @@ class PathEval:
                         local[x.id] = v.elts[i] if isinstance(v, ast.Tuple) and len(v.elts) == len(b.targets[0].elts) else ast.fix_missing_locations(ast.Subscript(value=copy.deepcopy(v), slice=ast.Constant(i), ctx=ast.Load()))
                     continue
                 if isinstance(b, ast.Expr) and isinstance(b.value, ast.Call) and isinstance(b.value.func, ast.Attribute) and b.value.func.attr == 'append' and isinstance(b.value.func.value, ast.Name) and len(b.value.args) == 1:
-                    appends.append((b.value.func.value.id, sub(b.value.args[0]), guard))
+                    appends.append((b.value.func.value.id, sub(b.value.args[0]), guard, tuple(gens_stack)))
+                    continue
+                if isinstance(b, ast.For) and not b.orelse and guard is None and all(isinstance(x, ast.Name) for x in (b.target.elts if isinstance(b.target, (ast.Tuple, ast.List)) else [b.target])):
+                    # a nested loop around the append: one more generator
+                    inner_names = [x.id for x in ast.walk(b.target) if isinstance(x, ast.Name)]
+                    hidden = {k: local.pop(k) for k in inner_names if k in local}
+                    shadow = {k: self.env.pop(k) for k in inner_names if k in self.env}
+                    gens_stack.append((copy.deepcopy(b.target), sub(b.iter)))
+                    n0 = len(appends)
+                    ok_in = walk(b.body, None)
+                    gens_stack.pop()
+                    local.update(hidden)
+                    self.env.update(shadow)
+                    if not ok_in or len(appends) == n0:
+                        return False
                     continue
                 # acc.extend((E1, E2)) / acc += [E1, E2]: the literal's items appended in order
                 lit = None
@@ -993,7 +1008,7 @@ class PathEval:
                     lit, accn = b.value, b.target.id
                 if lit is not None and isinstance(lit, (ast.Tuple, ast.List)) and lit.elts and not any(isinstance(x, ast.Starred) for x in lit.elts):
                     for x in lit.elts:
-                        appends.append((accn, sub(x), guard))
+                        appends.append((accn, sub(x), guard, tuple(gens_stack)))
                     continue
                 if isinstance(b, ast.If) and guard is None:
                     # a test decided on this path (concrete subject / constants): only the taken branch exists
@@ -1022,7 +1037,7 @@ class PathEval:
                         return None
                     x1, x2 = one(b.body[0]), one(b.orelse[0])
                     if x1 and x2 and x1[0] == x2[0]:
-                        appends.append((x1[0], ast.fix_missing_locations(ast.IfExp(test=sub(b.test), body=sub(x1[1]), orelse=sub(x2[1]))), None))
+                        appends.append((x1[0], ast.fix_missing_locations(ast.IfExp(test=sub(b.test), body=sub(x1[1]), orelse=sub(x2[1]))), None, tuple(gens_stack)))
                         continue
                 return False
             return True
@@ -1033,11 +1048,19 @@ class PathEval:
             cur = outer.get(acc)
             empty = isinstance(cur, ast.List) and not cur.elts or (isinstance(cur, ast.Call) and isinstance(cur.func, ast.Name) and cur.func.id == 'list' and not cur.args)
             guards = [a[2] for a in appends]
+            inner = [a[3] if len(a) > 3 else () for a in appends]
+            if any(inner) and not (len(appends) == 1):
+                empty = False      # several appends at different loop depths: not one comprehension
             if empty and all(al[1] == acc for al in aliases):
                 tgt = copy.deepcopy(s.target)
-                if len(appends) > 1 and any(g is not None for g in guards):
+                if len(appends) == 1 and inner[0]:
+                    gens = [ast.comprehension(target=tgt, iter=it, ifs=[], is_async=0)] + [ast.comprehension(target=t_, iter=i_, ifs=[], is_async=0) for t_, i_ in inner[0]]
+                    if guards[0] is not None:
+                        gens[-1].ifs = [guards[0]]
+                    comp = ast.ListComp(elt=appends[0][1], generators=gens)
+                elif len(appends) > 1 and any(g is not None for g in guards):
                     # some of several appends are conditional: kept as an explicit marker, no rule accepts it as a plain flat-map
-                    items = [ast.Tuple([g if g is not None else ast.Constant(True), e], ast.Load()) for _, e, g in appends]
+                    items = [ast.Tuple([a_[2] if a_[2] is not None else ast.Constant(True), a_[1]], ast.Load()) for a_ in appends]
                     comp = ast.ListComp(elt=ast.Name('__flat', ast.Load()), generators=[ast.comprehension(target=tgt, iter=it, ifs=[], is_async=0),
                                                                                       ast.comprehension(target=ast.Name('__flat', ast.Store()), iter=ast.Call(func=ast.Name('__guarded_items__', ast.Load()), args=items, keywords=[]), ifs=[], is_async=0)])
                 elif len(appends) == 1:
@@ -1154,6 +1177,12 @@ class PathEval:
                 return simple(x.left, depth) and simple(x.right, depth)
             if isinstance(x, ast.UnaryOp):
                 return simple(x.operand, depth)
+            if isinstance(x, ast.Compare):
+                return simple(x.left, depth) and all(simple(c, depth) for c in x.comparators)
+            if isinstance(x, ast.BoolOp):
+                return all(simple(v, depth) for v in x.values)
+            if isinstance(x, ast.Lambda):
+                return True          # a function value: evaluating the literal does not run it
             return False
         if not all(simple(x) for x in it.elts):
             return False
@@ -1385,6 +1414,36 @@ class PathEval:
         tnames = [x.id for x in ast.walk(s.target) if isinstance(x, ast.Name)]
         if not tnames:
             return False
+        # a loop over a comprehension with several generators is the nest of loops it was built by:
+        #     for T in [E for a in A for b in B if c]: BODY      ->      for a in A: for b in B: if c: T = E; BODY
+        it0 = self.subst(s.iter)
+        if isinstance(it0, (ast.ListComp, ast.GeneratorExp)) and len(it0.generators) > 1 and not getattr(s, '_denested', False) \
+                and not any(isinstance(x, ast.Name) and x.id in tnames for g in it0.generators for x in ast.walk(g.target)):
+            inner_body = [ast.Assign(targets=[copy.deepcopy(s.target)], value=copy.deepcopy(it0.elt))] + list(s.body)
+            for x in ast.walk(inner_body[0]):
+                if isinstance(x, ast.Name) and isinstance(x.ctx, ast.Load) is False:
+                    x.ctx = ast.Store()
+            node = None
+            for g in reversed(it0.generators):
+                body_g = inner_body if node is None else [node]
+                for c in reversed(g.ifs):
+                    body_g = [ast.If(test=copy.deepcopy(c), body=body_g, orelse=[])]
+                node = ast.For(target=copy.deepcopy(g.target), iter=copy.deepcopy(g.iter), body=body_g, orelse=[])
+                for x in ast.walk(node.target):
+                    if isinstance(x, ast.Name):
+                        x.ctx = ast.Store()
+            ast.copy_location(node, s)
+            ast.fix_missing_locations(node)
+            node._denested = True
+            # the generators' iterables are already written over the environment: evaluate the nest with the names they mention left alone
+            saved_env = dict(self.env)
+            ok_n = self._effect_loop(node)
+            if ok_n:
+                for k in tnames:
+                    self.env[k] = None
+                return True
+            self.env.clear()
+            self.env.update(saved_env)
         saved = dict(self.env)
         for k in tnames:
             self.env.pop(k, None)
@@ -1425,12 +1484,29 @@ class PathEval:
                     if len(b.body) == 1 and isinstance(b.body[0], ast.Continue) and not b.orelse:
                         guard = conj(guard, neg(t))
                         continue
+                    if len(b.body) > 1 and isinstance(b.body[-1], ast.Continue) and not b.orelse and not any(isinstance(x, (ast.Continue, ast.Break)) for st_ in b.body[:-1] for x in ast.walk(st_)):
+                        # if t: <effects>; continue      ->  the effects under t, everything after under not t
+                        ok1, _ = walk(b.body[:-1], conj(guard, t))
+                        if not ok1:
+                            return False, guard
+                        guard = conj(guard, neg(t))
+                        continue
                     ok1, _ = walk(b.body, conj(guard, t))
                     ok2, _ = walk(b.orelse, conj(guard, neg(t))) if b.orelse else (True, None)
                     if not (ok1 and ok2):
                         return False, guard
                     continue
                 if isinstance(b, ast.For) and not b.orelse:
+                    # a loop that only fills a list created in this iteration (acc = []; for ..: acc.append(..)): the list is a comprehension
+                    accs_ = {c.func.value.id for c in ast.walk(b) if isinstance(c, ast.Call) and isinstance(c.func, ast.Attribute) and c.func.attr in ('append', 'extend') and isinstance(c.func.value, ast.Name)}
+                    if len(accs_) == 1 and next(iter(accs_)) in local and isinstance(local[next(iter(accs_))], ast.List) and not local[next(iter(accs_))].elts:
+                        child = PathEval(self.fn, self.pred, self.value, None)
+                        child.res = PathResult()
+                        child.env.update({**self.env, **local})
+                        child.eval_closures = getattr(self, 'eval_closures', False)
+                        if child._append_loop(b):
+                            local[next(iter(accs_))] = child.env[next(iter(accs_))]
+                            continue
                     # a nested loop of the same kind: its effects range over the product of both loops
                     inner_names = [x.id for x in ast.walk(b.target) if isinstance(x, ast.Name)]
                     if not inner_names:
